@@ -165,7 +165,7 @@ theorem c19_attachment_bytes_partial (te : TE) (payload : List Nat) (hb : ∀ b 
       rw [List.map_congr_left (g := id)]
       · simp
       · intro c _; simp [Char.ofNat_toNat]
-    rw [this]; exact Base64.base64_rt payload hb
+    rw [this]; exact Base64.base64_lenient_rt payload hb
   · intro h; subst h; rfl
   · intro h h1 h2; subst h
     have hd : ∀ l : List Nat, (∀ x, l.head? = some x → x ≠ 13 ∧ x ≠ 10) →
@@ -181,6 +181,16 @@ theorem c19_attachment_bytes_partial (te : TE) (payload : List Nat) (hb : ∀ b 
     simp only [attachmentContent, stripCRLF]
     rw [hd payload h1, hd payload.reverse (by intro x hx; rw [List.head?_reverse] at hx; exact h2 x hx)]
     simp
+
+/-- **folded base64 bodies** (RFC 2045 6.8: encoded lines of at most 76 characters): a part body that is the canonical
+encoding with line breaks / blanks inserted anywhere is returned as the payload, byte for byte -/
+theorem c19_attachment_folded (payload : List Nat) (hb : ∀ b ∈ payload, b < 256) (raw : List Nat)
+    (hraw : (raw.map Char.ofNat).filter (fun c => !Base64.isSpace c) = Base64.encode payload) :
+    attachmentContent .base64 raw = some payload := by
+  simp only [attachmentContent]
+  exact Base64.base64_ws_rt payload hb _ hraw
+
+example : attachmentContent .base64 ("QUJD\r\nREVG\r\nIA==".toList.map Char.toNat) = some [65, 66, 67, 68, 69, 70, 32] := by decide +kernel
 
 /-- K6: a binary attachment ending in CR LF is altered -/
 theorem c19_attachment_binary_counterexample :
